@@ -77,13 +77,39 @@ func TestC11HTTP(t *testing.T) {
 			items = append(items, it)
 		}
 		acc1.AddService(svc)
-		acc, err := fixture.StartTransport(dir, "03145154", false, bridge.Accessory, acc1)
+		// a twin accessory with the same layout (same iids) whose characteristics permit no events
+		acc2 := accessory.New(accessory.Info{Name: "twin"}, accessory.TypeOther)
+		svc2 := service.New("F0")
+		var twins []*hitem
+		for _, it := range items {
+			var ctor registry.Ctor
+			for _, c := range registry.Chars {
+				if c.Name == it.ctor {
+					ctor = c
+				}
+			}
+			ch, _, err := registry.NewChar(ctor)
+			if err != nil {
+				continue
+			}
+			ch.Perms = []string{"pr", "pw"}
+			if ch.Value == nil {
+				ch.Value = defaultFor(ch.Format)
+			}
+			svc2.AddCharacteristic(ch)
+			twins = append(twins, &hitem{ch: ch, ctor: it.ctor + "(twin without ev)"})
+		}
+		acc2.AddService(svc2)
+		acc, err := fixture.StartTransport(dir, "03145154", false, bridge.Accessory, acc1, acc2)
 		if err != nil {
 			t.Skipf("INFRA: %v", err)
 		}
 		defer acc.StopAsync()
 		for _, it := range items {
 			it.aid = acc1.ID
+		}
+		for _, it := range twins {
+			it.aid = acc2.ID
 		}
 		ent, _ := d.EntityWithName(acc.Txt()["id"])
 		cl, err := refctl.Dial(acc.Addr)
@@ -185,6 +211,24 @@ func TestC11HTTP(t *testing.T) {
 					it.subbed = true
 				}
 			case "local-change":
+				if len(twins) > 0 && rapid.IntRange(0, 2).Draw(t, "twin") == 0 {
+					// the twin of a (possibly subscribed) characteristic changes: it permits no events at all
+					tw := twins[rapid.IntRange(0, len(twins)-1).Draw(t, "twinitem")]
+					v := differentValue(t, tw.ch)
+					hist = append(hist, fmt.Sprintf("application sets %s to %#v", tw.ctor, v))
+					tw.ch.UpdateValue(v)
+					if _, err := cl.Do("GET", fmt.Sprintf("/characteristics?id=%d.%d", bridge.ID, bridge.Info.Name.ID), "", nil); err != nil {
+						t.Fatalf("sync: %v\nhistory: %v", err, hist)
+					}
+					for _, ev := range cl.DrainEvents() {
+						if bytes.Contains(ev.Body, []byte(fmt.Sprintf(`"aid":%d,`, tw.aid))) {
+							t.Fatalf("EVENT for %s, which permits no events and was never subscribed: %s\nhistory: %v", tw.ctor, ev.Body, hist)
+						}
+					}
+					flags["http:event/twin-without-ev"] = true
+					missing = true
+					continue
+				}
 				v := differentValue(t, it.ch)
 				hist = append(hist, fmt.Sprintf("application sets %s perms=%v to %#v", it.ctor, it.ch.Perms, v))
 				it.ch.UpdateValue(v)
